@@ -10,7 +10,7 @@ from .c07 import mk
 from .common import MC, P, Q, TTL_FOREVER, RecTransport, loop_clean, new_loop, stub_uniform
 
 PROPERTY = "C13"
-BUDGET_S = {"quick": 900, "thorough": 3000}
+BUDGET_S = {"quick": 900, "thorough": 7200}
 STUBS = ["VirtualLoop (symbolic ticks)", "random.uniform: symbolic initial delay inside the window", "struct/bytes lowering (TTL bytes of offers symbolic)"]
 ASSUMPTIONS = [
     "the client is started at 1000 ms; watchers are registered before; offers / stop-offers arrive anywhere in 0..2500 ms so that an offer can also expire between rounds",
